@@ -29,7 +29,7 @@ func runC20(c *Ctx) {
 	c.Rule("C20.G", "health gate before any polling", 7)
 	c.Rule("C20.U", "consecutive-failure counter and threshold", 7)
 	c.Rule("C20.S", "shutdown sequence", 8)
-	c.Rule("C20.P", "polling stops once cancellation is observed", 2)
+	c.Rule("C20.P", "polling stops once cancellation is observed", 3)
 	c.Rule("C20.W", "workers are independent of the polling context", 3)
 	const ag = ModPath + "/agent"
 
@@ -400,6 +400,37 @@ func runC20(c *Ctx) {
 				ok = ok && h2 == nil
 			}
 			c.Check("C20.P", "poll:guarded-by-cancellation-test", p, list.Pos(), ok, "every list call is preceded, in the same iteration, by a non-blocking select on pollingCtx.Done() whose Done arm leaves the loop for good", "a pending-list poll can start without (re)checking pollingCtx.Done() first, or the Done arm does not stop the loop: new polls start after shutdown was requested")
+		}
+		// one list call = one proxy round trip (the cancellation test runs once per call)
+		if lp := c.need(p, "C20.P", "agent/utils.ListPendingRequests"); lp != nil {
+			n, looped := 0, ""
+			seen := map[*ssa.Function]bool{}
+			var visit func(fn *ssa.Function, inLoop bool, depth int)
+			visit = func(fn *ssa.Function, inLoop bool, depth int) {
+				if seen[fn] || depth > 4 {
+					return
+				}
+				seen[fn] = true
+				EachInstr(fn, func(i ssa.Instruction) {
+					cc := CallOf(i)
+					if cc == nil {
+						return
+					}
+					il := inLoop || InLoop(i.Block())
+					if IsCall(i, "(*net/http.Client).Do", "(*net/http.Client).Get", "(*net/http.Client).Post", "(*net/http.Client).Head", "(*net/http.Client).PostForm", "(net/http.RoundTripper).RoundTrip", "net/http.Get", "net/http.Post") {
+						n++
+						if il {
+							looped = p.Pos(i.Pos())
+						}
+						return
+					}
+					if callee := cc.StaticCallee(); callee != nil && len(callee.Blocks) > 0 && strings.HasPrefix(FuncName(callee), "agent") {
+						visit(callee, il, depth+1)
+					}
+				})
+			}
+			visit(lp, false, 0)
+			c.Check("C20.P", "poll:one-round-trip-per-list-call", p, lp.Pos(), n == 1 && looped == "", "ListPendingRequests sends exactly one request to the proxy, outside any loop: between two round trips the poll loop always re-tests the polling context", fmt.Sprintf("ListPendingRequests can send more than one request per call (%d sending sites, in a loop at %q): retries inside the call start new pending-list polls without re-testing the polling context, i.e. after shutdown was requested", n, looped))
 		}
 		if sel != nil {
 			c.OK("C20.P", "poll:select-on-polling-context", p, sel.Pos(), "the select watches the polling context parameter")
